@@ -269,6 +269,49 @@ pub fn exit_scn(c: Creator, e: Ending, twice: bool, q: Option<u32>, t: Option<u3
   sc
 }
 
+/// a callback that panics on the worker of interval / timer: whatever becomes of the panic, once the
+/// subscription has been unsubscribed no worker is left behind
+fn panic_scn(timer: bool, q: Option<u32>, t: Option<u32>) -> Scn {
+  let name = format!("c15/{} whose subscriber panics at the first tick, then unsubscribe", if timer { "Timer" } else { "Interval" });
+  let mut sc = scn(&name, "worker-threads-exit", q, t, move || {
+    let rec = Rec::new();
+    let rec2 = rec.clone();
+    let body: Body = Box::new(move || {
+      let o: Observable<'static, i64> = if timer { observables::timer(ms(10), nt()).map(|_| 0) } else { observables::interval(ms(10), nt()).map(|x| x as i64) };
+      let (r1, r2, r3) = (rec2.clone(), rec2.clone(), rec2.clone());
+      let sub = o.subscribe(
+        move |x| {
+          r1.cb(EvK::Next(x));
+          if x == 0 {
+            panic!("callback-panic");
+          }
+        },
+        move |_| r2.cb(EvK::Error(0)),
+        move || r3.cb(EvK::Complete),
+      );
+      thread::sleep(ms(25));
+      sub.unsubscribe();
+      thread::sleep(ms(200));
+    });
+    let check: Check = Box::new(move |e2: &ExecEnd| {
+      let mut v: Vec<rxverif_rt::explore::Violation> = base_violations(e2, &[]).into_iter().filter(|x| !(x.class == "panic" && x.detail.contains("callback-panic"))).collect();
+      let live = unfinished_threads(e2);
+      if !live.is_empty() {
+        let parked: Vec<usize> = e2.cond_blocked();
+        v.push(viol(
+          if live.iter().all(|t| parked.contains(t)) { "leaked-worker-parked-forever" } else { "thread-still-alive" },
+          format!("threads {:?} have not exited although the subscription was unsubscribed long ago; {}", live, thread_summary(e2)),
+        ));
+      }
+      Verdict { outcome: format!("{} | {}", rec.short(), thread_summary(e2)), violations: v }
+    });
+    (body, check)
+  });
+  sc.min_conflicts = 1;
+  sc.cfg.max_steps = 60_000;
+  sc
+}
+
 pub fn c15_scenarios() -> Vec<Scn> {
   use Creator::*;
   use Ending::*;
@@ -297,6 +340,8 @@ pub fn c15_scenarios() -> Vec<Scn> {
       }
     }
   }
+  v.push(panic_scn(false, Some(1), Some(2)));
+  v.push(panic_scn(true, Some(1), Some(2)));
   v
 }
 
@@ -458,6 +503,32 @@ pub fn c16_scenarios() -> Vec<Scn> {
       }
     },
   ));
+  // the "no limit" idiom: timeout(Duration::MAX) lets everything through (its watchdogs sleep for ever: the
+  // execution ends at the virtual-time horizon with those threads asleep, which is what the crate does)
+  v.push({
+    let mut sc = scn("c16/timeout(Duration::MAX) is transparent", "time", Some(1), Some(2), move || {
+      let rec = Rec::new();
+      let rec2 = rec.clone();
+      let body: Body = Box::new(move || {
+        let hot = Hot::<i64>::new();
+        let _sub = rec2.sub_i64(&hot.observable().timeout(std::time::Duration::MAX, nt()));
+        hot.next(1);
+        hot.next(2);
+        hot.complete();
+      });
+      let check: Check = Box::new(move |e: &ExecEnd| {
+        let mut v: Vec<rxverif_rt::explore::Violation> = base_violations(e, &[]).into_iter().filter(|x| x.class != "livelock-or-horizon").collect();
+        let got: Vec<EvK> = rec.events().iter().map(|x| x.k.clone()).collect();
+        if got != vec![EvK::Next(1), EvK::Next(2), EvK::Complete] {
+          v.push(viol("timeout-off-the-clock", format!("got {}, want n1 n2 C: no time limit, nothing may be lost or added", rec.short())));
+        }
+        Verdict { outcome: rec.short(), violations: v }
+      });
+      (body, check)
+    });
+    sc.min_conflicts = 1;
+    sc
+  });
   // interval on the default (synchronous) scheduler: ticks on the subscribing thread until take(n) ends it
   v.push(time_scn(
     "c16/interval(10ms, default scheduler).take(3) on the subscribing thread",
